@@ -274,8 +274,11 @@ func filterFields(path []string, ss ast.SelectionSet, allowedFields AllowedField
 				}
 
 				var ferrs gqlerror.List
-				fieldPath := append(path, s.Name)
-				s.SelectionSet, ferrs = filterFields(fieldPath, s.SelectionSet, fieldsPerms)
+				if s.SelectionSet != nil {
+					// a leaf allowed by an empty set ("field": [] or {}) keeps its nil selection set
+					fieldPath := append(path, s.Name)
+					s.SelectionSet, ferrs = filterFields(fieldPath, s.SelectionSet, fieldsPerms)
+				}
 				res = append(res, s)
 				errs = append(errs, ferrs...)
 			} else {
